@@ -258,6 +258,10 @@ fn main() {
             }
         }
     });
+    // hidden-state monitor: sampled events of all shards again, mixed, on one thread (ctx::run_mix)
+    run_mix(&mut ctx, seed, |c, e| {
+        exec_dispatch(c, e);
+    });
     let mut required = Vec::new();
     for g in Group::ALL {
         for n in 0..=8usize {
